@@ -1211,6 +1211,311 @@ def check_C09(cx):
                   "regions under ASan; distinct = distinct (options, line)" % len(lines))
 
 
+# ------------------------------------------------------------------------------------------
+# C11 — assembly modes
+# ------------------------------------------------------------------------------------------
+
+REGNUM = {n: i for i, n in enumerate(cases.GPR64)}
+REGNUM.update({n: i for i, n in enumerate(cases.GPR32)})
+C11_VALUES = [0, 1, 5, 0x7f, 0x80, 0xff, 0x100, 0x7fff, 0x8000, 0xffff, 0x10000, 0x12345678, 0x7ffffffe, 0x7fffffff, 0x80000000,
+              0x80000001, 0xdeadbeef, 0xfffffffe, 0xffffffff, 0x100000000, 0x100000001, 0x7fffffffffffffff, 0x8000000000000000,
+              0xffffffff7fffffff, 0xffffffff80000000, 0xfffffffffffffffe, 0xffffffffffffffff]
+
+
+def mov_spellings(v):
+    """(text, padded): the spellings of an immediate; padded = hexadecimal with all 16 digits"""
+    out = [("%d" % v, False), ("0x%x" % v, len("%x" % v) >= 16), ("0x%016x" % v, True), ("0x%08x" % v, len("%08x" % v) >= 16),
+           ("0X%X" % v, len("%x" % v) >= 16), ("0x%016X" % v, True), ("0x0%016x" % v, True), ("0x%015x" % v, len("%015x" % v) >= 16)]
+    if v >= 1 << 63:
+        out.append(("-%d" % ((1 << 64) - v), False))
+        out.append(("-0x%x" % ((1 << 64) - v), False))
+    return out
+
+
+def mov_expected(reg, v, narrow):
+    """documented encoding of `mov r64, imm` (0 <= v < 2^64): nasm's narrowing or the kept destination"""
+    n = REGNUM[reg]
+    if v <= 0xffffffff and narrow:
+        return (b"\x41" if n >= 8 else b"") + bytes([0xb8 + (n & 7)]) + v.to_bytes(4, "little")
+    rexw = bytes([0x48 | (1 if n >= 8 else 0)])
+    if v <= 0x7fffffff or v >= 0xffffffff80000000:
+        return rexw + b"\xc7" + bytes([0xc0 + (n & 7)]) + (v & 0xffffffff).to_bytes(4, "little")
+    return rexw + bytes([0xb8 + (n & 7)]) + v.to_bytes(8, "little")
+
+
+def lea_fields(bs):
+    """decode `lea r64, m`: (has67, rex, mod, reg, rm, scale, index, base, disp) or None"""
+    i = 0
+    h67 = False
+    if bs[i] == 0x67:
+        h67 = True
+        i += 1
+    rex = 0
+    if 0x40 <= bs[i] <= 0x4f:
+        rex = bs[i]
+        i += 1
+    if bs[i] != 0x8d:
+        return None
+    modrm = bs[i + 1]
+    i += 2
+    mod, reg, rm = modrm >> 6, (modrm >> 3) & 7, modrm & 7
+    sc = idx = base = None
+    if rm == 4 and mod != 3:
+        sib = bs[i]
+        i += 1
+        sc, idx, base = sib >> 6, (sib >> 3) & 7, sib & 7
+    rest = bs[i:]
+    want = {0: 4 if ((base == 5) if rm == 4 else (rm == 5)) else 0, 1: 1, 2: 4}[mod]
+    if len(rest) != want:
+        return None
+    disp = int.from_bytes(rest, "little", signed=True) if rest else 0
+    return dict(h67=h67, rex=rex, mod=mod, reg=reg | ((rex >> 2) & 1) << 3, rm=rm, scale=sc,
+                index=None if idx is None else idx | ((rex >> 1) & 1) << 3, base=(base if rm == 4 else rm) | (rex & 1) << 3, disp=disp)
+
+
+MEM_TEMPLATES = ["lea r15, %s", "lea eax, %s", "mov rcx, %s", "mov %s, rdx", "mov dword %s, 7", "add %s, rsi", "inc qword %s", "push qword %s",
+                 "movaps xmm3, %s", "vaddpd ymm1, ymm2, %s", "vmovdqu %s, ymm5", "mulx rax, rbx, %s", "shrx rax, %s, rbx", "imul rax, %s, 5",
+                 "movzx eax, byte %s", "cmovne r9, %s", "xchg %s, r10", "test byte %s, 1", "movq xmm1, %s", "adc r8, %s"]
+
+
+# templates whose immediate follows a memory destination: the immediate's width is C02's business (it is derived from the base
+# register in the C code), so the whole-instruction comparison with the rewritten operand is not made for them
+IMM_MEM_FIRST = {"mov dword %s, 7", "test byte %s, 1"}
+
+
+def exec_program(base, index, scale, disp, vals):
+    """program returning the address `[base+index*scale+disp]` minus the stack pointer contribution, and the expected value"""
+    ls = ["push rbx", "push rbp", "push r12", "push r13", "push r14", "push r15"]
+    exp = disp
+    uses_rsp = False
+    seen = set()
+    for rg, mult in ((base, 1), (index, scale)):
+        if rg is None:
+            continue
+        if rg == "rsp":
+            uses_rsp = True
+            continue
+        if rg not in seen:
+            ls.append("mov %s, 0x%x" % (rg, vals[rg]))
+            seen.add(rg)
+        exp += vals[rg] * mult
+    return ls, uses_rsp, exp % (1 << 64)
+
+
+def check_C11(cx):
+    thms = ["AL.Properties.C11." + t for t in ["other_lines_identical", "lines_identical_fn", "resolveLine_indep", "encodeIfRegs_indep",
+            "optPlainB_sound", "strict_keeps_destination", "smart_follows_spelling", "narrowOk_spelling", "swap_only_when_nasm",
+            "nobase_only_when_nasm", "swap_same_address", "nobase_scale2_same_address", "nobase_scale1_same_address"]] + \
+           ["AL.Lemmas." + t for t in ["encodeMem_indep", "getReg_indep", "encodeImm_indep", "encodeImm_same", "encodeOperands_indep",
+            "dispatchEnc_indep", "encodeImmDataTransfer_indep", "xchgAdjust_plain"]]
+    info = stage_proofs(cx, "AL.Properties.C11", thms)
+    impl = build_impl(cx)
+    if not (info and impl):
+        return finish(cx, "")
+    g = cases.Gen(cx.seed, info["tables"])
+    r = g.r
+    OPTS = cases.OPTS
+    quick = cx.tier == "quick"
+    try:
+        corpus, _ = corpus_lines(g, impl, 1500 if quick else 12000, opts=(14,))
+    except ImplCrash as e:
+        cx.violations.append({"kind": "crash", "op": e.op, "stderr": e.err[-1500:]})
+        return finish(cx, "")
+    corpus = sorted(set(l for _, l in corpus))
+    # ---- targeted families, class known by construction --------------------------------------------------
+    fam = []   # (line, class) class in A (mov r64 imm<=32 bit), B (swap), C (no base), N (none of them)
+    regs = cases.GPR64 if not quick else ["rax", "rcx", "rbx", "rsp", "rbp", "rsi", "r8", "r12", "r13", "r15"]
+    for rg in regs:
+        for v in C11_VALUES:
+            for sp, padded in mov_spellings(v):
+                fam.append(("mov %s, %s" % (rg, sp), "A" if v <= 0xffffffff else "N", ("mov", rg, v, padded)))
+    for rg in ["eax", "r9d", "cx", "r10w", "dl", "r11b", "ah"]:
+        for v in [0, 5, 0x7f, 0x80, 0xff, 0x7fff, 0xffff, 0x7fffffff, 0x80000000, 0xffffffff]:
+            fam.append(("mov %s, 0x%x" % (rg, v), "N", None))
+            fam.append(("mov %s, 0x%016x" % (rg, v), "N", None))
+    for m in ["qword [rax]", "dword [rbx+8]", "word [rcx]", "byte [rdx-1]"]:
+        for v in [0, 5, 0x7f, 0xff, 0x7fffffff, 0x80000000, 0xffffffff]:
+            fam.append(("mov %s, 0x%x" % (m, v), "N", None))
+    for v in [0, 5, 0x7f, 0x80, 0x7fffffff, 0x80000000, 0xffffffff]:
+        fam.append(("push 0x%x" % v, "N", None))
+        fam.append(("push %d" % v, "N", None))
+    disps = [None, 8, -8, 0x7f, -0x80, 0x80, -0x81, 0x12345, -0x12345]
+    if quick:
+        disps = [None, 8, -8, 0x80, -0x12345]
+    tmpls = MEM_TEMPLATES if not quick else MEM_TEMPLATES[:12]
+    shapes = []   # (text, class, (base, index, scale, disp), equivalent text or None)
+    def dtxt(d):
+        return "" if d is None else ("+0x%x" % d if d >= 0 else "-0x%x" % -d)
+    for b in cases.GPR64:
+        for d in disps:
+            shapes.append(("[%s+rsp%s]" % (b, dtxt(d)), "B", (b, "rsp", 1, d or 0), "[rsp+%s%s]" % (b, dtxt(d))))
+            shapes.append(("[rsp+%s%s]" % (b, dtxt(d)), "N" if b != "rsp" else "B", ("rsp", b, 1, d or 0), None))
+    for b in ["eax", "ebx", "r9d", "ebp", "r13d"]:
+        shapes.append(("[%s+esp]" % b, "B", None, "[esp+%s]" % b))
+        shapes.append(("[%s+esp+16]" % b, "B", None, "[esp+%s+16]" % b))
+    for i in cases.GPR64 + ["eax", "ebp", "r12d", "r13d"]:
+        if i in ("rsp", "esp"):
+            continue
+        for sc in (1, 2, 4, 8):
+            for d in disps:
+                eq = None
+                if sc == 1:
+                    eq = "[%s%s]" % (i, dtxt(d))
+                elif sc == 2:
+                    eq = "[%s+1*%s%s]" % (i, i, dtxt(d))
+                shapes.append(("[%d*%s%s]" % (sc, i, dtxt(d)), "C", (None, i, sc, d or 0) if i in REGNUM and i in cases.GPR64 else None, eq))
+    for b in ["rax", "rbp", "r12", "r13"]:
+        for i in ["rcx", "rbp", "r12", "r13"]:
+            for sc in (1, 2, 8):
+                shapes.append(("[%s+%d*%s]" % (b, sc, i), "N", (b, i, sc, 0), None))
+                shapes.append(("[%s+%d*%s-4]" % (b, sc, i), "N", (b, i, sc, -4), None))
+    memlines = []
+    for t in tmpls:
+        for sh in shapes:
+            memlines.append((t % sh[0], sh[1], ("mem", t, sh)))
+            if sh[3]:
+                memlines.append((t % sh[3], None, None))
+    fam += memlines
+    all_lines = sorted(set(corpus) | set(l for l, _, _ in fam))
+    cx.dist = {"corpus_lines": len(corpus), "mov_family": sum(1 for f in fam if f[2] and f[2][0] == "mov"), "memory_family": len(memlines),
+               "templates": len(tmpls), "shapes": len(shapes), "options": 12}
+    # ---- T2: every line under all twelve option bytes, model vs implementation ---------------------------
+    keys = [(o, l.encode()) for l in all_lines for o in OPTS]
+    ops, out = tie_lines(cx, impl, keys, "C11 all lines x 12 option bytes (whole per-line pipeline)")
+    res = {}
+    for (o, l), ln in zip(keys, out):
+        p = ln.split()
+        res[(o, l)] = (p[0], p[2] if p[0] == "0" and len(p) > 2 else "-")
+    # ---- the guard of the theorem, from the model ---------------------------------------------------------
+    rc, gout, gerr = alv.run_driver(alv.driver_path(), ["P %s" % cases.hexs(l.encode()) for l in all_lines])
+    cx.oblige("model guard (optPlainB of the encoder input) evaluated for %d lines" % len(all_lines), rc == 0 and len(gout) == len(all_lines), gerr[-500:])
+    if rc != 0 or len(gout) != len(all_lines):
+        return finish(cx, "")
+    guard = dict(zip(all_lines, gout))
+    nv = 0
+    def viol(v):
+        nonlocal nv
+        nv += 1
+        if nv <= 6:
+            cx.violations.append(v)
+    # (a) non-interference on the implementation for every line outside the classes (theorem other_lines_identical)
+    nplain = nvary = 0
+    for l in all_lines:
+        rs = {o: res[(o, l.encode())] for o in OPTS}
+        varies = len(set(rs.values())) > 1
+        nvary += varies
+        if guard[l] != "0":
+            nplain += 1
+            if varies:
+                o1 = OPTS[0]
+                o2 = next(o for o in OPTS if rs[o] != rs[o1])
+                viol({"kind": "interference", "line": l, "opt_a": o1, "result_a": list(rs[o1]), "opt_b": o2, "result_b": list(rs[o2]),
+                      "what": "a line outside the three documented classes assembles differently under two option bytes"})
+    cx.dist["lines_outside_classes"] = nplain
+    cx.dist["lines_whose_bytes_vary"] = nvary
+    # (b) the guard is the documented classification on the constructed families
+    wrong = [(l, c, guard[l]) for l, c, _ in fam if c is not None and res[(14, l.encode())][0] == "0" and guard[l] != "-" and
+             (guard[l] == "0") != (c != "N")]
+    cx.oblige("the theorem's classes are the documented ones on %d constructed lines" % sum(1 for _, c, _ in fam if c), not wrong, json.dumps(wrong[:5]))
+    # (c) mov r64, imm: documented bytes per mode and spelling
+    nmov = 0
+    for l, c, meta in fam:
+        if not meta or meta[0] != "mov":
+            continue
+        _, rg, v, padded = meta
+        for o in OPTS:
+            mode = o & 3
+            narrow = mode == 1 or (mode == 2 and not padded)
+            want = mov_expected(rg, v, narrow).hex()
+            got = res[(o, l.encode())]
+            nmov += 1
+            if got != ("0", want):
+                viol({"kind": "mov-imm", "line": l, "opt": o, "mode": ["STRICT", "NASM", "SMART"][mode], "expected": want, "got": list(got),
+                      "what": "mov r64, imm is not narrowed / kept as documented for this mode and spelling"})
+    cx.dist["mov_checks"] = nmov
+    # (d) SIB rewritings: bit dependence, literal form, metamorphic equivalent, executed address
+    nsib = nexec = 0
+    xprogs = []
+    vals = {rg: r.getrandbits(44) | (1 << 44) for rg in cases.GPR64}
+    for l, c, meta in memlines:
+        if not meta:
+            continue
+        _, t, sh = meta
+        shape, cls, parts, eq = sh
+        rs = {o: res[(o, l.encode())] for o in OPTS}
+        if all(v[0] != "0" for v in rs.values()):
+            continue
+        if cls in ("B", "C"):
+            bit = 4 if cls == "B" else 8
+            nsib += 1
+            for on in (0, bit):
+                grp = set(rs[o] for o in OPTS if (o & bit) == on)
+                if len(grp) > 1:
+                    viol({"kind": "sib-bit", "line": l, "class": cls, "results": {str(o): list(rs[o]) for o in OPTS},
+                          "what": "the result depends on more than the documented option bit"})
+            if eq is not None and t not in IMM_MEM_FIRST:
+                leq = t % eq
+                a, b = rs[bit | 2], res[(0, leq.encode())]
+                if a != b:
+                    viol({"kind": "sib-rewrite", "line": l, "opt": bit | 2, "got": list(a), "equivalent_line": leq, "equivalent_literal": list(b),
+                          "what": "with the NASM bit the operand is not encoded as its documented rewriting"})
+            elif eq is None and cls == "C" and rs[8] != rs[0]:
+                viol({"kind": "sib-rewrite", "line": l, "got_nasm": list(rs[8]), "got_strict": list(rs[0]),
+                      "what": "scale 4/8 without base has no rewriting, yet the no-base bit changes the bytes"})
+        if t == "lea r15, %s":
+            # literal form under STRICT
+            if cls in ("B", "C") and rs[0][0] == "0":
+                f = lea_fields(bytes.fromhex(rs[0][1]))
+                ok = f is not None
+                if ok and cls == "B":
+                    b_ = REGNUM[shape[1:].split("+")[0]]
+                    ok = f["rm"] == 4 and f["scale"] == 0 and (f["index"] & 7) == 4 and f["base"] == b_
+                elif ok:
+                    sc, i_ = shape[1:].split("*")
+                    i_ = re.match(r"[a-z0-9]+", i_).group(0)
+                    ok = f["mod"] == 0 and f["rm"] == 4 and f["scale"] == {"1": 0, "2": 1, "4": 2, "8": 3}[sc] and f["index"] == REGNUM[i_] \
+                        and (f["base"] & 7) == 5 and f["disp"] == (parts[3] if parts else f["disp"])
+                if not ok:
+                    viol({"kind": "sib-literal", "line": l, "opt": 0, "got": list(rs[0]), "decoded": f,
+                          "what": "with STRICT the operand is not encoded literally (scale, index, base fields as written)"})
+            # executed address under NASM
+            if parts and rs[14][0] == "0":
+                pre, uses_rsp, exp = exec_program(parts[0], parts[1], parts[2], parts[3], vals)
+                prog = pre + ["lea rax, %s" % shape] + (["sub rax, rsp"] if uses_rsp else []) + \
+                    ["pop r15", "pop r14", "pop r13", "pop r12", "pop rbp", "pop rbx", "ret"]
+                for o in ((14, 12) if cls != "N" else (14, 0)):
+                    xprogs.append((l, o, "\n".join(prog).encode(), exp))
+    cx.dist["sib_checks"] = nsib
+    xops = []
+    for l, o, prog, exp in xprogs:
+        xops += ["N 0 -", "S 0 mov %d" % (o & 3), "S 0 swap %d" % ((o >> 2) & 1), "S 0 nobase %d" % ((o >> 3) & 1),
+                 "A 0 %s" % cases.hexs(prog), "X 0", "F 0"]
+    try:
+        xo = run_impl(impl, xops) if xops else []
+        for k, (l, o, prog, exp) in enumerate(xprogs):
+            got = xo[7 * k + 5]
+            nexec += 1
+            if xo[7 * k + 4].split()[0] != "0" or int(got, 16) != exp:
+                viol({"kind": "sib-address", "line": l, "opt": o, "program": prog.decode(), "expected_rax": "%x" % exp, "got_rax": got,
+                      "assemble_result": xo[7 * k + 4], "what": "the executed lea yields an address different from the written one"})
+    except ImplCrash as e:
+        viol({"kind": "crash", "op": e.op[:300], "stderr": e.err[-800:], "what": "executing lea programs"})
+    cx.count(nexec + nmov + nsib, [])
+    cx.oblige("executed-address oracle: %d lea programs run under NASM options" % nexec, nexec > 0 or quick and not xprogs)
+    cx.dist["exec_checks"] = nexec
+    cx.nontrivial.update(all_lines)
+    cx.cov["samples"] = [fam[3][0], memlines[5][0], memlines[len(memlines) // 2][0], corpus[len(corpus) // 2]]
+    cx.assumptions.append("the CPU executing the lea programs is the x86-64 reference for the executed-address oracle")
+    return finish(cx, "every line of the corpus (representative + generated valid lines) and of the constructed families (mov r64, imm over %d values x "
+                  "up to 10 spellings x %d registers; [base+rsp/esp(+disp)] and [scale*index(+disp)] shapes under %d instruction templates) under all "
+                  "12 option bytes: (a) lines the model's guard puts outside the classes must give identical results under all 12 options on the "
+                  "implementation, (b) the guard equals the documented class on the constructed lines, (c) mov r64, imm bytes equal the documented "
+                  "narrow/kept form per mode and spelling, (d) SIB lines depend only on their bit, equal the literal encoding of the documented "
+                  "rewriting with the bit, have literal fields without it, and the executed lea address equals the written one; "
+                  "distinct = distinct line texts" % (len(C11_VALUES), len(regs), len(tmpls)))
+
+
+
 def history_around(ops, idx):
     """the ops of the history that contains op number idx (a history starts at its first N op
     after an F op or at the beginning)"""
@@ -1223,7 +1528,7 @@ def history_around(ops, idx):
     return ops[start:end + 1]
 
 
-CHECKS = {"C12": check_C12, "C07": check_C07, "C06": check_C06, "C13": check_C13, "C14": check_C14, "C08": check_C08, "C15": check_C15, "C16": check_C16, "C10": check_C10, "C09": check_C09}
+CHECKS = {"C12": check_C12, "C07": check_C07, "C06": check_C06, "C13": check_C13, "C14": check_C14, "C08": check_C08, "C15": check_C15, "C16": check_C16, "C10": check_C10, "C09": check_C09, "C11": check_C11}
 
 
 def run_check(prop, tier, seed):
